@@ -376,6 +376,12 @@ func scribble(st map[string]any) {
 
 // ApplyStateOps performs the state ops of a state block in place.
 func ApplyStateOps(st map[string]any, id, off, ops int) {
+	if ops&32 != 0 {
+		delete(st, "box") // the Cloner value leaves the store ...
+	}
+	if ops&64 != 0 {
+		st["box"] = "plain" + strconv.Itoa(id) // ... or is replaced by a value that is not a Cloner
+	}
 	if ops&1 != 0 {
 		st["n"] = StateN(st) + 1
 	}
